@@ -383,6 +383,11 @@ Json random_geo(long work_cap) {
     const int stride = L - nov;
     long maxseg = std::max<long>(1, std::min<long>(work_cap / nfft, (100000 - L) / stride + 1));
     int nseg = pick_log(1, int(maxseg));
+    if (pick(0, 5) == 0 && maxseg >= 4) {   // a segment count of 2^k, 2^k - 1 or 2^k + 1 (blocked accumulation has its edges there)
+        int k = 2;
+        while ((2L << k) <= maxseg) ++k;
+        nseg = std::max(1, std::min(int(maxseg), (1 << pick(2, k)) + pick(-1, 1)));
+    }
     int extra = pick(0, stride - 1);
     while (long(L) + long(nseg - 1) * stride + extra > 100000) extra = 0, nseg = std::max(1, nseg - 1);
     return geo_json(nfft, L, nov, nseg, extra, form, pick(0, W_NFAM - 1), pick(0, 3) != 0, pick(0, 1));
